@@ -18,7 +18,7 @@ import (
 )
 
 func TestMain(m *testing.M) {
-	vlib.Rule("C30: Tier 1 (structures): filesys.ContinuousDirtyPages and TempFileDirtyPages on a real WFS (chunk limit 8-64 B; saves go through the real saveDataAsChunk -> gRPC AssignVolume on a harness filer -> operation.Upload to an HTTP volume stub that keeps chunks in memory): rapid sequences of write(off 0..96, len 1..80, overlapping, out of order, larger than the limit) as FileHandle.Write performs them (file size = max), read windows (flushed chunks resolved with a reference overlay, then ReadDirtyDataAt), FlushData; plus every write sequence of length <=3 (quick: <=2 and an eighth of length 3) over a 6-byte space, with a flush at every position. Tier 2: the real Dir.Create / FileHandle.Write / Read / Flush / File.Setattr(size) with both buffers: rapid sequences incl. truncation. Oracle: POSIX model (byte array + size): each read window equals the model; after a flush the entry's chunk list (Tier 2: the entry the filer received) resolved by a reference overlay (newest mtime wins, holes zero) equals the model, and no chunk reaches beyond the file size. Non-trivial = >=2 overlapping writes with a flush or an over-limit write between them (Tier 2 also: a truncation below written data). Distinct = distinct op list.")
+	vlib.Rule("C30: Tier 1 (structures): filesys.ContinuousDirtyPages and TempFileDirtyPages on a real WFS (chunk limit 8-64 B; saves go through the real saveDataAsChunk -> gRPC AssignVolume on a harness filer -> operation.Upload to an HTTP volume stub that keeps chunks in memory): rapid sequences of write(off 0..96, len 1..80, overlapping, out of order, larger than the limit) as FileHandle.Write performs them (file size = max), read windows (flushed chunks resolved with a reference overlay, then ReadDirtyDataAt), FlushData; plus every write sequence of length <=3 over a 6-byte space and of length <=4 over a 4-byte space (quick: a sixth of the length-3 ones, length <=3 over 4 bytes), with a flush at every position and a whole-file read after every step. Tier 2: the real Dir.Create / FileHandle.Write / Read / Flush / File.Setattr(size) with both buffers: rapid sequences incl. truncation. Oracle: POSIX model (byte array + size): each read window equals the model; after a flush the entry's chunk list (Tier 2: the entry the filer received) resolved by a reference overlay (newest mtime wins, holes zero) equals the model, and no chunk reaches beyond the file size. Non-trivial = >=2 overlapping writes with a flush or an over-limit write between them (Tier 2 also: a truncation below written data). Distinct = distinct op list.")
 	vlib.Assume("C30: single-threaded use of one handle (the FUSE layer serialises through fh.Lock); writes have length >= 1 (the kernel never sends empty writes); uploads succeed; reads are checked after in-flight chunk uploads of the in-memory buffer have completed (the window in which an uploading page is in neither the buffer nor the chunk list is reported separately); chunk mtimes come from the wall clock (two saves in the same nanosecond would be ambiguous: such bytes are accepted either way)")
 	vlib.Main(m)
 }
@@ -110,6 +110,7 @@ type subject interface {
 	read(off int64, n int) ([]byte, string) // what a POSIX read of n bytes at off returns
 	flush(modelSize int64, model []byte) string
 	truncate(size int64) string
+	reopen() string
 	done()
 }
 
@@ -202,6 +203,7 @@ func (s *pagesSubject) flush(modelSize int64, model []byte) string {
 }
 
 func (s *pagesSubject) truncate(size int64) string { return "unsupported" }
+func (s *pagesSubject) reopen() string             { return "" }
 
 func (s *pagesSubject) done() {
 	s.pages.FlushData()
@@ -246,6 +248,9 @@ type fhSubject struct {
 	file    *filesys.File
 	fh      *filesys.FileHandle
 	path    string
+	kind    string
+	raw     bool // finding probes: no exclusions
+	noWait  bool // finding probe: read while a chunk upload is in flight
 	prefill byte
 	// end of the highest write since the last flush (an upper bound of the dirty extent)
 	dirtyEnd int64
@@ -258,7 +263,7 @@ func newFhSubject(e *env, kind string) (*fhSubject, string) {
 	if err != nil {
 		return nil, "Create: " + err.Error()
 	}
-	s := &fhSubject{e: e, file: node.(*filesys.File), fh: handle.(*filesys.FileHandle), path: "/" + name}
+	s := &fhSubject{e: e, file: node.(*filesys.File), fh: handle.(*filesys.FileHandle), path: "/" + name, kind: kind}
 	if kind == "mem" {
 		s.fh.VerifUseContinuousDirtyPages()
 	}
@@ -283,7 +288,10 @@ func (s *fhSubject) write(off int64, data []byte) string {
 }
 
 func (s *fhSubject) read(off int64, n int) ([]byte, string) {
-	filesys.VerifWaitWrites(s.fh.VerifDirtyPages())
+	if !s.raw || !s.noWait {
+		// see keyInFlight: without this wait the outcome would depend on goroutine timing
+		filesys.VerifWaitWrites(s.fh.VerifDirtyPages())
+	}
 	b := make([]byte, n)
 	for i := range b {
 		b[i] = s.prefill
@@ -328,11 +336,11 @@ const keyTruncDrops = "C30-truncate-drops-chunks-below-new-size"
 const keyTruncDirty = "C30-truncate-keeps-dirty-pages"
 
 func (s *fhSubject) truncate(size int64) string {
-	if vlib.Known(keyTruncDirty) && size < s.dirtyEnd {
+	if !s.raw && vlib.Known(keyTruncDirty) && size < s.dirtyEnd {
 		vlib.Excluded(keyTruncDirty)
 		return "skip"
 	}
-	if vlib.Known(keyTruncDrops) {
+	if !s.raw && vlib.Known(keyTruncDrops) {
 		en := s.file.VerifEntry()
 		if en != nil && uint64(size) < fileSizeOf(en) {
 			for _, c := range en.Chunks {
@@ -345,6 +353,26 @@ func (s *fhSubject) truncate(size int64) string {
 	}
 	if err := s.file.Setattr(context.Background(), &fuse.SetattrRequest{Valid: fuse.SetattrSize, Size: uint64(size)}, &fuse.SetattrResponse{}); err != nil {
 		return "Setattr: " + err.Error()
+	}
+	return ""
+}
+
+// reopen: Release (the flush has just been done) and Open again: a new handle whose
+// entry comes from the mount's meta cache.
+func (s *fhSubject) reopen() string {
+	if err := s.fh.Release(context.Background(), &fuse.ReleaseRequest{}); err != nil {
+		return "Release: " + err.Error()
+	}
+	h, err := s.file.Open(context.Background(), &fuse.OpenRequest{Flags: fuse.OpenReadWrite}, &fuse.OpenResponse{})
+	if err != nil {
+		return "Open: " + err.Error()
+	}
+	s.fh = h.(*filesys.FileHandle)
+	if s.kind == "mem" {
+		s.fh.VerifUseContinuousDirtyPages()
+	}
+	if s.file.VerifEntry() == nil {
+		return "after re-open the file has no entry"
 	}
 	return ""
 }
@@ -373,6 +401,8 @@ func (o op) String() string {
 		return fmt.Sprintf("r[%d,%d)", o.off, o.off+int64(o.n))
 	case "t":
 		return fmt.Sprintf("trunc(%d)", o.off)
+	case "o":
+		return "flush+release+open"
 	}
 	return "flush"
 }
@@ -394,19 +424,20 @@ type outcome struct {
 // drive applies ops to the subject and to the POSIX model. fullReadAfterWrite adds a
 // whole-file read after every mutation (used by the exhaustive enumerator).
 //
-// readFrom >= 0 restricts reads to the run of consecutive read ops that starts at the
-// readFrom-th read op (used while the stale-view finding is listed: the handle's cached
-// view is then never observed after the file changed).
+// readFrom >= 0 is used while the stale-view finding is listed: reads before the
+// readFrom-th read op are skipped, and once a read has built the handle's cached view,
+// reads after a later write / flush / truncation are skipped until the file is
+// re-opened (so the stale view is never observed, everything else still is).
 func drive(s subject, ops []op, limit int, fullReadAfterEach bool, readFrom int) outcome {
 	var model []byte
-	readIdx, inRun := -1, false
+	readIdx, viewBuilt, changed := -1, false, false
 	type wr struct {
 		pos      int
 		off, end int64
 	}
 	var writes []wr
 	var saves []int // positions of flushes / over-limit writes
-	truncBelow := false
+	truncBelow, reopened := false, false
 	var hist []string
 	fail := func(f string, a ...interface{}) outcome {
 		return outcome{fail: fmt.Sprintf(f, a...) + "\nhistory: " + strings.Join(hist, " ")}
@@ -432,8 +463,10 @@ func drive(s subject, ops []op, limit int, fullReadAfterEach bool, readFrom int)
 	nw := 0
 	for pos, o := range ops {
 		hist = append(hist, o.String())
-		if o.kind != "r" && inRun {
-			inRun, readFrom = false, 1<<30
+		if o.kind == "o" {
+			viewBuilt, changed = false, false
+		} else if o.kind != "r" && viewBuilt {
+			changed = true
 		}
 		switch o.kind {
 		case "w":
@@ -453,22 +486,26 @@ func drive(s subject, ops []op, limit int, fullReadAfterEach bool, readFrom int)
 		case "r":
 			readIdx++
 			if readFrom >= 0 {
-				if readIdx == readFrom {
-					inRun = true
-				}
-				if !inRun {
+				if readIdx < readFrom || (viewBuilt && changed) {
 					hist[len(hist)-1] = "(skipped " + o.String() + ")"
 					continue
 				}
+				viewBuilt = true
 			}
 			if e := checkRead(o.off, o.n); e != "" {
 				return fail("%s", e)
 			}
-		case "f":
+		case "f", "o":
 			if e := s.flush(int64(len(model)), model); e != "" {
 				return fail("after flush: %s", e)
 			}
 			saves = append(saves, pos)
+			if o.kind == "o" {
+				if e := s.reopen(); e != "" {
+					return fail("%s", e)
+				}
+				reopened = true
+			}
 		case "t":
 			if e := s.truncate(o.off); e == "skip" {
 				hist[len(hist)-1] = "(skipped " + o.String() + ")"
@@ -514,6 +551,9 @@ func drive(s subject, ops []op, limit int, fullReadAfterEach bool, readFrom int)
 	if overlap {
 		out.classes = append(out.classes, "overlapping-writes")
 	}
+	if reopened {
+		out.classes = append(out.classes, "reopened")
+	}
 	for _, w := range writes {
 		if int(w.end-w.off) > limit {
 			out.classes = append(out.classes, "over-limit-write")
@@ -537,7 +577,7 @@ func genOps(t *rapid.T, maxOff, maxLen int, withTruncate bool) []op {
 	n := rapid.IntRange(2, 24).Draw(t, "nOps")
 	kinds := []string{"w", "w", "w", "w", "r", "r", "f"}
 	if withTruncate {
-		kinds = append(kinds, "t")
+		kinds = append(kinds, "t", "t", "o")
 	}
 	var ops []op
 	for i := 0; i < n; i++ {
@@ -546,8 +586,8 @@ func genOps(t *rapid.T, maxOff, maxLen int, withTruncate bool) []op {
 			ops = append(ops, op{kind: "w", off: int64(rapid.IntRange(0, maxOff).Draw(t, "off")), n: rapid.IntRange(1, maxLen).Draw(t, "len")})
 		case "r":
 			ops = append(ops, op{kind: "r", off: int64(rapid.IntRange(0, maxOff+14).Draw(t, "roff")), n: rapid.IntRange(1, maxLen+20).Draw(t, "rlen")})
-		case "f":
-			ops = append(ops, op{kind: "f"})
+		case "f", "o":
+			ops = append(ops, op{kind: k})
 		case "t":
 			ops = append(ops, op{kind: "t", off: int64(rapid.IntRange(0, maxOff+20).Draw(t, "tsize"))})
 		}
@@ -617,25 +657,22 @@ func intervals(space int) []op {
 	return out
 }
 
-func TestPropWriteSequencesExhaustive(t *testing.T) {
-	space, limit := 6, 3
+// enumerate runs every write sequence of length <= maxLen over [0,space) with a flush
+// inserted at every position, on both buffers. Of the sequences of the maximal length only
+// every sample-th is run (1 = all).
+func enumerate(t *testing.T, space, limit, maxLen, sample int) {
 	iv := intervals(space)
-	maxLen := 3
 	e := getEnv(0)
 	e.opt.ChunkSizeLimit = int64(limit)
 	idx := 0
-	covered := true
-	var rec func(prefix []op)
 	run := func(seq []op) {
-		// a flush at every position (0 = none before the end)
-		for fpos := 0; fpos < len(seq); fpos++ {
+		for fpos := 0; fpos < len(seq); fpos++ { // 0 = no flush before the end
 			for _, kind := range []string{"mem", "tmp"} {
 				idx++
 				if !vlib.ShardOwns(idx) {
 					continue
 				}
-				if len(seq) == 3 && !vlib.Thorough() && (idx/vlib.Shards())%8 != 0 {
-					covered = false
+				if len(seq) == maxLen && sample > 1 && (idx/vlib.Shards())%sample != 0 {
 					continue
 				}
 				var ops []op
@@ -652,10 +689,11 @@ func TestPropWriteSequencesExhaustive(t *testing.T) {
 				if out.fail != "" {
 					t.Fatalf("buffer=%s limit=%d: %s", kind, limit, out.fail)
 				}
-				vlib.Case(fmt.Sprintf("exh %s %s", kind, opsStr(ops)), out.nontrivial, append([]string{"exhaustive-" + kind}, out.classes...)...)
+				vlib.Case(fmt.Sprintf("exh %s limit=%d %s", kind, limit, opsStr(ops)), out.nontrivial, append([]string{"exhaustive-" + kind}, out.classes...)...)
 			}
 		}
 	}
+	var rec func(prefix []op)
 	rec = func(prefix []op) {
 		if len(prefix) > 0 {
 			run(prefix)
@@ -668,8 +706,81 @@ func TestPropWriteSequencesExhaustive(t *testing.T) {
 		}
 	}
 	rec(nil)
-	vlib.Exhaustive(fmt.Sprintf("write-sequences-len<=%d-over-%d-bytes", maxLen, space), covered)
-	if !covered {
-		vlib.Note("quick tier: all write sequences of length <=2 and one eighth of length 3 over 6 bytes; thorough covers all of length 3")
+	vlib.Exhaustive(fmt.Sprintf("write-sequences-len<=%d-over-%d-bytes-limit-%d", maxLen, space, limit), sample == 1)
+}
+
+func TestPropWriteSequencesExhaustive(t *testing.T) {
+	if vlib.Thorough() {
+		enumerate(t, 6, 3, 3, 1) // 21 intervals: 9261+441+21 sequences x flush positions x 2 buffers
+		enumerate(t, 4, 2, 4, 1) // 10 intervals: 11110 sequences
+	} else {
+		enumerate(t, 6, 3, 3, 6)
+		enumerate(t, 4, 2, 3, 1)
+		vlib.Note("quick tier: all write sequences of length <=2 and one sixth of length 3 over 6 bytes, all of length <=3 over 4 bytes; thorough covers length 3 over 6 bytes and length 4 over 4 bytes completely")
 	}
+}
+
+// ----------------------------------------------------------------- finding probes
+
+func probe(t *testing.T, key, kind string, limit int, ops []op, what string) {
+	e := getEnv(0)
+	e.opt.ChunkSizeLimit = int64(limit)
+	s, err := newFhSubject(e, kind)
+	if err != "" {
+		t.Fatalf("INCONCLUSIVE %s", err)
+	}
+	s.raw = true
+	out := drive(s, ops, limit, false, -1)
+	s.done()
+	detail := what + ": " + opsStr(ops) + " -> as the POSIX model"
+	if out.fail != "" {
+		detail = what + ": " + strings.Split(out.fail, "\nhistory")[0] + " | ops: " + opsStr(ops)
+	}
+	vlib.Finding(t, key, out.fail != "", detail)
+}
+
+func TestFindingTruncateDropsChunks(t *testing.T) {
+	probe(t, keyTruncDrops, "tmp", 16, []op{{kind: "w", off: 0, n: 4}, {kind: "f"}, {kind: "w", off: 8, n: 4}, {kind: "f"}, {kind: "t", off: 10}, {kind: "f"}},
+		"FileHandle, chunks [0,4) and [8,12) flushed, Setattr(size=10), flush")
+}
+
+func TestFindingStaleReadView(t *testing.T) {
+	probe(t, keyStaleView, "tmp", 16, []op{{kind: "w", off: 0, n: 4}, {kind: "f"}, {kind: "r", off: 0, n: 4}, {kind: "w", off: 0, n: 4}, {kind: "f"}, {kind: "r", off: 0, n: 4}},
+		"FileHandle, write, flush, read, overwrite, flush, read on one handle")
+}
+
+func TestFindingTruncateKeepsDirtyPages(t *testing.T) {
+	probe(t, keyTruncDirty, "tmp", 16, []op{{kind: "w", off: 0, n: 10}, {kind: "t", off: 4}, {kind: "f"}},
+		"FileHandle, write [0,10) (dirty), Setattr(size=4), flush")
+}
+
+// keyInFlight: ContinuousDirtyPages removes a page from the buffer when it starts the
+// asynchronous upload and adds the chunk to the entry when the upload is done; in
+// between the bytes are in neither place. (newFileHandle does not use this buffer.)
+const keyInFlight = "C30-continuous-page-invisible-while-uploading"
+
+func TestFindingInFlightPageInvisible(t *testing.T) {
+	e := getEnv(0)
+	e.opt.ChunkSizeLimit = 8
+	s, err := newFhSubject(e, "mem")
+	if err != "" {
+		t.Fatalf("INCONCLUSIVE %s", err)
+	}
+	s.raw, s.noWait = true, true
+	gate := make(chan struct{})
+	e.mu.Lock()
+	e.gate = gate
+	e.mu.Unlock()
+	data := writeData(1, 8)
+	s.write(0, data) // buffer reaches the chunk limit: the page is handed to an uploader goroutine
+	got, rerr := s.read(0, 8)
+	e.mu.Lock()
+	e.gate = nil
+	e.mu.Unlock()
+	close(gate)
+	filesys.VerifWaitWrites(s.fh.VerifDirtyPages())
+	after, _ := s.read(0, 8)
+	s.done()
+	vlib.Finding(t, keyInFlight, rerr == "" && !bytes.Equal(got, data),
+		fmt.Sprintf("in-memory buffer, chunk limit 8: Write [0,8) returns, Read [0,8) while the chunk upload is still in flight returns %v, want %v (after the upload finished: %v)", got, data, after))
 }
